@@ -419,7 +419,17 @@ func (x *exec) inline(st *State, fr *Frame, ins ssa.Instruction, ci calleeInfo, 
 	x.recordEventVals(st, ins, ci.key, "inline", args, paramNames(ci, nil))
 	st.trace[len(st.trace)-1].Quiet = true
 	nf := &Frame{fn: fn, depth: fr.depth + 1, parent: fr, site: ins, loops: x.loopInfoOf(fn)}
-	nf.k = func(st *State, rets []Value) { k(st, rets) }
+	seq := len(st.trace) - 1
+	nf.k = func(st *State, rets []Value) {
+		// the results of an inlined call are known on this path: record them on a copy of the event (states that split
+		// inside the callee share the event object)
+		if seq < len(st.trace) && st.trace[seq].Site == ins && st.trace[seq].Kind == "inline" {
+			cp := *st.trace[seq]
+			cp.Rets = rets
+			st.trace[seq] = &cp
+		}
+		k(st, rets)
+	}
 	for i, p := range fn.Params {
 		if i >= len(args) {
 			unsupported("arity mismatch inlining %s", ci.key)
@@ -516,6 +526,8 @@ func (x *exec) applyContract(st *State, fr *Frame, ins ssa.Instruction, ci calle
 	e := x.e
 	if fs.External || fs.Trusted != "" {
 		e.trustedUsed[fs.Key] = true
+	} else {
+		e.contractsUsed[fs.Key] = true
 	}
 	names := paramNames(ci, fs)
 	env := x.newEnv(st, fs)
